@@ -11,7 +11,7 @@ CONSTANTS
   MaxOps = 4
   MaxSnaps = 1
   MaxRestarts = 1
-INVARIANTS NoTombLive GroupsValid GroupsFine EpochsFine FlagsConsistent
-PROPERTIES A_RS_Streams A_RS_RoEff A_RS_GroupMembers A_NoDataLoss A_NoResurrection A_NoApplyError A_RS_StartedByFinish
+INVARIANTS NoTombLive NoRecLive GroupsValid GroupsFine EpochsFine FlagsConsistent
+PROPERTIES A_RS_Streams A_RS_RoEff A_RS_GroupMembers A_NoDataLoss A_NoResurrection A_NoApplyError A_RS_Started
 VIEW MCView
 CHECK_DEADLOCK FALSE
